@@ -34,6 +34,28 @@ pub fn ev_push(kind: u8, ms: u64) {
 pub fn ev_count() -> usize {
     unsafe { EV_N }
 }
+pub fn ev_count_kind(kind: u8) -> usize {
+    let mut n = 0;
+    let mut i = 0;
+    let top = if ev_count() < MAX_EV { ev_count() } else { MAX_EV };
+    while i < top {
+        if unsafe { EV_KIND[i] } == kind {
+            n += 1;
+        }
+        i += 1;
+    }
+    n
+}
+/// Mirror of the bytes handed to the most recent successful write call (the Odk owns its port and
+/// offers no accessor, so the writer reports here).
+pub static mut LAST_WRITE: [u8; 32] = [0; 32];
+pub static mut LAST_WRITE_LEN: usize = 0;
+pub fn last_write_len() -> usize {
+    unsafe { LAST_WRITE_LEN }
+}
+pub fn last_write_byte(i: usize) -> u8 {
+    unsafe { LAST_WRITE[i] }
+}
 pub fn ev_get(i: usize) -> (u8, u64) {
     unsafe { (EV_KIND[i], EV_MS[i]) }
 }
@@ -175,6 +197,14 @@ impl<const CAP: usize> Write for SymWriter<CAP> {
             i += 1;
         }
         self.flushed_after_last_write = false;
+        unsafe {
+            LAST_WRITE_LEN = n;
+            let mut j = 0;
+            while j < n && j < 32 {
+                LAST_WRITE[j] = buf[j];
+                j += 1;
+            }
+        }
         ev_push(EV_WRITE, 0);
         Ok(n)
     }
